@@ -74,6 +74,7 @@ def split_returns(fd):
                 for c in n["c"]:
                     if c >= 0:
                         parent[c] = i
+        nodes[el[-1]]["split_root"] = True
         for P in preds[1:]:
             m = {}
             for e in el:
@@ -188,15 +189,37 @@ def alias_renamed(allf, rel, census, sigs, log):
     parameter types appeared there, has been renamed: the new name is mapped back to the name the rules know."""
     present = {fd["name"] for fd in allf}
     files = {rel(fd["file"]) for fd in allf}
-    for name, (f, ret, ptypes, _static, _pn) in sorted(sigs.items()):
-        if name in present or f not in files:
+    import difflib
+    missing = [(name, sg) for name, sg in sorted(sigs.items()) if name not in present and sg[0] in files]
+    fresh = {}
+    for fd in allf:
+        if fd["name"] not in census:
+            fresh.setdefault(fd["name"], fd)
+    pairs = []
+    for name, (f, ret, ptypes, _static, _pn) in missing:
+        for new, fd in fresh.items():
+            if rel(fd["file"]) == f and fd.get("ret") == ret and [p["t"] for p in fd["params"]] == ptypes:
+                pairs.append([0.0, name, new])
+    # similarity is judged on what distinguishes the names: the common prefix of a missing name and all its candidates is dropped
+    for name in {p[1] for p in pairs}:
+        grp = [p for p in pairs if p[1] == name]
+        cp = os.path.commonprefix([name] + [p[2] for p in grp])
+        for p in grp:
+            a, b = name[len(cp):], p[2][len(cp):]
+            p[0] = difflib.SequenceMatcher(None, a, b).ratio() + (0.5 if a and b and (a.startswith(b) or b.startswith(a)) else 0.0)
+    pairs = [tuple(p) for p in pairs]
+    # a unique candidate is taken as it is; among several, the most similar name wins when it is the mutual best match
+    chosen = {}
+    for name in {p[1] for p in pairs}:
+        mine = sorted([p for p in pairs if p[1] == name], reverse=True)
+        best = mine[0]
+        if len(mine) > 1 and (best[0] < 0.4 or best[0] - mine[1][0] < 0.1):
             continue
-        cands = [fd for fd in allf if fd["name"] not in census and rel(fd["file"]) == f and fd.get("ret") == ret
-                 and [p["t"] for p in fd["params"]] == ptypes]
-        names = {fd["name"] for fd in cands}
-        if len(names) != 1:
+        rivals = sorted([p for p in pairs if p[2] == best[2]], reverse=True)
+        if rivals[0][1] != name:
             continue
-        new = names.pop()
+        chosen[name] = best[2]
+    for name, new in sorted(chosen.items()):
         for fd in allf:
             if fd["name"] == new:
                 fd["name"] = name
@@ -206,7 +229,6 @@ def alias_renamed(allf, rel, census, sigs, log):
                     n["callee"] = name
                 if n["k"] == "DeclRefExpr" and n.get("dk") == "func" and n.get("name") == new:
                     n["name"] = name
-        present.add(name)
         log.append(("<renamed>", "%s -> %s" % (new, name)))
 
 
